@@ -309,16 +309,26 @@ func UpdateCheckpoint(outCli client.Redis, localCheckpoint string, ids []string)
 			Offset:  -1,
 			Version: config.Version,
 		}
+		dbid := 0
 		if len(cpName) > 0 { // restore old checkpoint
-			cpKv, _, err = GetCheckpoint(outCli, cpName, ids)
+			cpKv, dbid, err = GetCheckpoint(outCli, cpName, ids)
 			if err != nil {
 				return err
+			}
+			if dbid < 0 {
+				dbid = 0
 			}
 		}
 
 		oldId := cpKv.RunId
 		cpKv.Key = localCheckpoint
 		cpKv.RunId = id1
+		// GetCheckpoint leaves the connection in whichever DB it visited last;
+		// the position must stay in the DB it was read from
+		err = redis.SelectDB(outCli, uint32(dbid))
+		if err != nil {
+			return err
+		}
 		err = SetCheckpoint(outCli, cpKv)
 		if err != nil {
 			return err
